@@ -42,7 +42,7 @@ RULE = (
     "compared with the model after every transition, states are de-duplicated on the model state once the observation "
     "vector agrees (a disagreeing successor is reported and not expanded); closure for LRUCache max_size 1-3, "
     "SimpleCache, DiskCache max_size 1-3 x lru_cache_size {none,1,2}; HybridCache max_size 1-3 x 3 weightings to depth "
-    "5 (quick) / 7 (thorough) with the validity predicate 'victim has minimal score within 1e-12'. (seq) Hypothesis "
+    "7 (quick) / 10 (thorough) with the validity predicate 'victim has minimal score within 1e-12'. (seq) Hypothesis "
     "op lists (<= 40 ops, 2-8 keys of mixed types, values str/int/list) for all four classes, shared in ~15 % of cases "
     "(real multiprocessing.Manager), allow_cloudpickle on/off, DiskCache with/without in-memory LRU, reopened with the "
     "same / a smaller / no max_size; each result, len and the membership vector are compared with the model after "
@@ -750,7 +750,7 @@ def enum_bfs():
 
 def enum_bfs_hybrid(tier):
     def gen():
-        depth = 5 if tier == "quick" else 7
+        depth = 7 if tier == "quick" else 10
         for m in (3, 2, 1):
             for aw, dw in ((0.5, 0.5), (1.0, 0.0), (0.2, 0.8)):
                 yield {"cls": "hybrid", "max_size": m, "aw": aw, "dw": dw, "depth": depth}
@@ -1545,10 +1545,10 @@ def campaigns(tier):
                           "DiskCache max_size 1-3 x lru_cache_size none/1/2; alphabet 6 puts, 3 gets, 3 in, len, clear"),
         Campaign("bfs-hybrid", body_bfs, enumerate=enum_bfs_hybrid(tier), quick=0, thorough=0, exhaustive=True, shards_quick=9,
                  shards_thorough=9,
-                 describe="HybridCache max_size 1-3 x 3 weightings, every history up to depth 5 (quick) / 7 (thorough) modulo model state"),
+                 describe="HybridCache max_size 1-3 x 3 weightings, every history up to depth 7 (quick) / 10 (thorough) modulo model state"),
         Campaign("seq", body_seq, seq_cases(), quick=2400, thorough=60000,
                  describe="drawn op lists on all four classes, shared (real Manager) ~15 %, DiskCache reopen"),
-        Campaign("interleave", body_interleave, ilv_cases(), quick=1600, thorough=40000,
+        Campaign("interleave", body_interleave, ilv_cases(), quick=8000, thorough=200000,
                  describe="drawn programs and schedules on the fake Manager"),
         Campaign("ilv-sys", body_ilv_sys, enumerate=enum_ilv_sys(tier), quick=0, thorough=0, exhaustive=False,
                  describe="all schedules (up to a cap) of small two/three-thread programs"),
